@@ -141,9 +141,9 @@ def synth_correspondence(ctx, base):
             bad += 1
         if not prop_ok:
             bad_prop += 1
-            ctx.fail("to_circuit:AG04", f"to_circuit('AG04') of the tableau of {descr} does not reproduce the tableau / state, mutates the object or is not repeatable ({err or ''})",
+            ctx.fail("to_circuit:AG04:gates", f"to_circuit('AG04') of the tableau of {descr} does not reproduce the tableau / state, mutates the object or is not repeatable ({err or ''})",
                      src, expected="same tableau, same state up to phase", observed=str(real_gates)[:300],
-                     broken=["C12_search_to_circuit_AG04"] + ([] if corr_ok else ["C12_corr_synth"]))
+                     broken=["C12_search_to_circuit_AG04", "C12_corr_synth"])
         elif not corr_ok:
             # the real circuit is right but differs from the model: report the first difference;
             # no failing input of the property exists for it
@@ -206,10 +206,10 @@ def group_suite(ctx, base):
                     bad_ag += 1
                 else:
                     bad_bm += 1
-                ctx.fail(f"to_circuit:{alg}", f"to_circuit({alg!r}) of the 2-qubit tableau {base.tab_tokens(T[:-1])} does not reproduce it: {lst[:200]}",
+                ctx.fail(f"to_circuit:{alg}:group2", f"to_circuit({alg!r}) of the 2-qubit tableau {base.tab_tokens(T[:-1])} does not reproduce it: {lst[:200]}",
                          head + f"c2 = Clifford(T.copy(), engine='numpy').to_circuit({alg!r})\nr2 = be.execute_circuit(c2).symplectic_matrix if c2.queue else be.zero_state(2)\n"
                          "assert np.array_equal(np.asarray(r2).astype(int)[:-1], T[:-1]), np.asarray(r2).astype(int).tolist()\n",
-                         expected=base.tab_tokens(T[:-1]), broken=["C12_search_group2_" + alg] + (["C12_corr_synth_group2"] if alg == "AG04" and bad_corr else []))
+                         expected=base.tab_tokens(T[:-1]), broken=["C12_search_group2_" + alg] + (["C12_corr_synth_group2"] if alg == "AG04" else []))
     ctx.ob("C12_corr_synth_group2", bad_corr == 0, "correspondence", f"{bad_corr} gate lists differ from the model" if bad_corr else f"{len(tabs)} two-qubit tableaux")
     ctx.ob("C12_search_group2_AG04", bad_ag == 0, "search", "")
     ctx.ob("C12_search_group2_BM20", bad_bm == 0, "search", "")
